@@ -232,3 +232,15 @@ Definition ok_parse (c : list (rname * list (mtype * string)) * nat * string * o
   let '(rs, status, ct, obs) := c in
   opt_eqb String.eqb (parse rs status ct) obs.
 Definition mismatches_parse := mismatches ok_parse.
+
+(** C12: observed = what the generated strict handler wrote for a response object. *)
+From V Require Import Model.Strict.
+Definition ok_visit (c : rcell * supplied * (nat * option string * list (string * string))) : bool :=
+  let '(r, v, (st, ct, hdrs)) := c in
+  let w := visit r v in
+  Nat.eqb (w_status w) st && opt_eqb String.eqb (w_ctype w) ct && list_eqb pair_eqb (w_headers w) hdrs.
+Definition mismatches_visit := mismatches ok_visit.
+
+Definition ok_bodies (c : list string * string * list string) : bool :=
+  let '(declared, ct, obs) := c in list_eqb String.eqb (bodies_decoded declared ct) obs.
+Definition mismatches_bodies := mismatches ok_bodies.
